@@ -77,6 +77,13 @@ func Start(cfg Config) (*GW, error) {
 	}
 	cmd := exec.Command(self, "gwd", string(b))
 	cmd.SysProcAttr = &syscall.SysProcAttr{Pdeathsig: syscall.SIGKILL}
+	// AWS_CA_BUNDLE (set in this sandbox) makes the AWS SDK refuse the custom HTTP client
+	// the s3proxy backend configures; it is irrelevant for plain-HTTP loopback endpoints
+	for _, e := range os.Environ() {
+		if !strings.HasPrefix(e, "AWS_CA_BUNDLE=") {
+			cmd.Env = append(cmd.Env, e)
+		}
+	}
 	stdin, _ := cmd.StdinPipe()
 	stdout, _ := cmd.StdoutPipe()
 	eb := &lockedBuf{}
